@@ -1,6 +1,7 @@
 package streams
 
 import (
+	"fmt"
 	"strings"
 
 	"github.com/paulsonkoly/chess-3/board"
@@ -354,6 +355,143 @@ func tpKey(b *board.Board) string {
 // judge only demands equal hashes for equal keys, the model comparison covers the rest.
 func genMktp(rng *hx.Rng, n int, tier string, emit func(hx.Input)) {
 	cnt := 0
+	// Family "ep-push" (added after seeded change C04-I): positions of C02's en-passant generator
+	// (double pushes next to enemy pawns, with pins and discovered checks). Order 1 ENDS with the double
+	// push (x y m: the en-passant state is visible), order 2 starts with it (m y x: the state is gone), so
+	// an en-passant flag recorded without a legal capture makes two orders of one position hash apart.
+	// When no commuting x, y exist the pair is m against m (the model comparison still sees the flag).
+	for nEP := n / 5; cnt < nEP; {
+		b, m, fen, ok := epPosition(rng)
+		if !ok {
+			continue
+		}
+		snap := b.VerifSnapshot()
+		l1, l2 := []move.Move{m}, []move.Move{m}
+		xs := posgen.Legal(b)
+		for try := 0; try < 24 && len(xs) > 1; try++ {
+			x := xs[rng.Intn(len(xs))]
+			if x == m || b.SquaresToPiece[x.From()] == Pawn || b.SquaresToPiece[x.To()] != NoPiece {
+				continue
+			}
+			bx, _ := playLegal(snap, []move.Move{x})
+			ys := posgen.Legal(bx)
+			if len(ys) == 0 {
+				continue
+			}
+			y := ys[rng.Intn(len(ys))]
+			if _, ok := playLegal(snap, []move.Move{x, y, m}); !ok {
+				continue
+			}
+			if _, ok := playLegal(snap, []move.Move{m, y, x}); !ok {
+				continue
+			}
+			l1, l2 = []move.Move{x, y, m}, []move.Move{m, y, x}
+			break
+		}
+		b1, _ := playLegal(snap, l1)
+		b2, _ := playLegal(snap, l2)
+		same := tpKey(b1) == tpKey(b2)
+		in := (&hx.Nums{}).BoardIn(board.VerifRestore(snap))
+		var sb strings.Builder
+		sb.WriteString("EP fen " + fen + " line1")
+		in.Int(len(l1))
+		for _, mv := range l1 {
+			in.U(hx.M2U(mv))
+			sb.WriteString(" " + mv.String())
+		}
+		sb.WriteString(" line2")
+		in.Int(len(l2))
+		for _, mv := range l2 {
+			in.U(hx.M2U(mv))
+			sb.WriteString(" " + mv.String())
+		}
+		tag := "same-position"
+		if !same {
+			tag = "different-position"
+		}
+		emit(hx.Input{In: in.String(), Desc: sb.String(), Tags: []string{tag, "ep-push"}, NonTrivial: same && len(l1) > 1,
+			Key: tpKey(b1) + sb.String()})
+		cnt++
+	}
+	// Family "ep-disc" (seeded change C04-I): a slider move x lines a rook or queen up BEHIND the origin square of
+	// a double push m, the enemy king on the far side of that rank, an enemy pawn stepping next to the push target
+	// with y. Order x y m ends with a discovered check through the origin square (no en-passant capture is legal:
+	// none answers the check), order m y x reaches the same position without any en-passant state.
+	for nDisc := cnt + n/10; cnt < nDisc; {
+		var sq [64]byte
+		f := 1 + rng.Intn(6)
+		side := 1 - 2*rng.Intn(2)
+		e := 1 - 2*rng.Intn(2)
+		kx, sx := f+side*(1+rng.Intn(7)), f-side*(1+rng.Intn(7))
+		if kx < 0 || kx > 7 || sx < 0 || sx > 7 {
+			continue
+		}
+		r0 := []int{0, 2, 3, 4, 5, 6, 7}[rng.Intn(7)]
+		at := func(x, y int) int { return y*8 + x }
+		pieces := []struct {
+			s int
+			c byte
+		}{{at(f, 1), 'P'}, {at(kx, 1), 'k'}, {at(sx, r0), "RQ"[rng.Intn(2)]}, {at(f+e, 4), 'p'}, {at(rng.Intn(8), 6+rng.Intn(2)), 'K'}}
+		for i, n := 0, rng.Intn(4); i < n; i++ {
+			pieces = append(pieces, struct {
+				s int
+				c byte
+			}{8 + rng.Intn(48), "pnbPNB"[rng.Intn(6)]})
+		}
+		clash := false
+		for _, pc := range pieces {
+			if sq[pc.s] != 0 {
+				clash = true
+			}
+			sq[pc.s] = pc.c
+		}
+		if clash {
+			continue
+		}
+		xs, ys, ms := Square(at(sx, r0)), Square(at(f+e, 4)), Square(at(f, 1))
+		xt, yt, mt := Square(at(sx, 1)), Square(at(f+e, 3)), Square(at(f, 3))
+		stm := "w"
+		if rng.Bool() {
+			sq = mirrorSq(sq)
+			stm = "b"
+			xs, ys, ms, xt, yt, mt = xs^56, ys^56, ms^56, xt^56, yt^56, mt^56
+		}
+		fen := placementFEN(sq) + " " + stm + " - - " + fmt.Sprint(rng.Intn(40)) + " " + fmt.Sprint(1+rng.Intn(60))
+		b, err := board.FromFEN(fen)
+		if err != nil || !posgen.Valid(b) {
+			continue
+		}
+		snap := b.VerifSnapshot()
+		x, y, m := move.From(xs)|move.To(xt), move.From(ys)|move.To(yt), move.From(ms)|move.To(mt)
+		l1, l2 := []move.Move{x, y, m}, []move.Move{m, y, x}
+		b1, ok1 := playLegal(snap, l1)
+		b2, ok2 := playLegal(snap, l2)
+		if !ok1 || !ok2 {
+			continue
+		}
+		same := tpKey(b1) == tpKey(b2)
+		in := (&hx.Nums{}).BoardIn(board.VerifRestore(snap))
+		var sb strings.Builder
+		sb.WriteString("EPD fen " + fen + " line1")
+		in.Int(3)
+		for _, mv := range l1 {
+			in.U(hx.M2U(mv))
+			sb.WriteString(" " + mv.String())
+		}
+		sb.WriteString(" line2")
+		in.Int(3)
+		for _, mv := range l2 {
+			in.U(hx.M2U(mv))
+			sb.WriteString(" " + mv.String())
+		}
+		tag := "same-position"
+		if !same {
+			tag = "different-position"
+		}
+		emit(hx.Input{In: in.String(), Desc: sb.String(), Tags: []string{tag, "ep-disc"}, NonTrivial: true,
+			Key: tpKey(b1) + sb.String()})
+		cnt++
+	}
 	for cnt < n {
 		posgen.Stream(rng, 40, func(p posgen.Pos) {
 			if cnt >= n {
